@@ -1,6 +1,6 @@
 (* Executable entry point of correspondence stage `cmd` (C15). *)
 From Coq Require Import ZArith List Bool Arith.
-From PM Require Import Model.Options Model.Objects.
+From PM Require Import Model.Options Model.Objects Model.LoadOrder Model.SourceOpts.
 Import ListNotations.
 
 Definition enc_att (a : att) : list Z :=
@@ -27,3 +27,34 @@ Definition obj_case (ls : list oline) : list (list Z) :=
       ++ [[(-2)%Z]]
       ++ map (fun l => [kcode (ol_kind l); match ol_tag l with Some t => t | None => (-1)%Z end; Z.of_nat (ol_body l)]%Z) (write_objs gs)
   end.
+
+(* lumped loads: the model's loads in registration order as (kind code, attachment ids); parameters are identified
+   by the position in that list.  Rows: written options [0; kind; par] / [1; number; attachment], then [-2], then
+   the re-read loads [par; attachments ...] (or [-1] when the reader rejects) *)
+Definition kind_of (z : Z) : lkind := match z with 0 => LImp | 1 => LRlc | 2 => LTrap | _ => LLap end%Z.
+Definition kind_code (k : lkind) : Z := match k with LImp => 0 | LRlc => 1 | LTrap => 2 | LLap => 3 end%Z.
+Fixpoint number_from (n : nat) (l : list (Z * list Z)) : list (lumped nat Z) :=
+  match l with [] => [] | (k, a) :: r => mkL (kind_of k) n a :: number_from (S n) r end.
+Definition loads_case (l : list (Z * list Z)) : list (list Z) :=
+  let M := number_from 0 l in
+  let w := write_loads nat Z M in
+  map (fun o => match o with ODef k p => [0; kind_code k; Z.of_nat p] | OAtt n a => [1; Z.of_nat n; a] end)%Z w
+  ++ [[(-2)%Z]]
+  ++ match read_loads nat Z w with
+     | Some M' => map (fun x => Z.of_nat (l_par x) :: l_att x) M'
+     | None => [[(-1)%Z]]
+     end.
+
+(* sources: (voltage id with 1 = exactly 1 V, address, default flag); address [p] absolute or [k; tag].
+   Rows: written options [0; v] / [1; p] / [1; k; tag], then [-2], then the re-read sources [v; default; address ...] *)
+Definition addr_of (l : list Z) : saddr := match l with [k; t] => SRel (Z.to_nat k) t | [p] => SAbs (Z.to_nat p) | _ => SAbs 0 end.
+Definition addr_code (a : saddr) : list Z := match a with SAbs p => [Z.of_nat p] | SRel k t => [Z.of_nat k; t] end.
+Definition srcs_case (l : list (Z * list Z * bool)) : list (list Z) :=
+  let S := map (fun x => mkSrc (fst (fst x)) (addr_of (snd (fst x))) (snd x)) l in
+  let w := write_srcs Z (Z.eqb 1) S in
+  map (fun o => match o with OVolt v => [0; v] | OPulse a => 1 :: addr_code a end)%Z w
+  ++ [[(-2)%Z]]
+  ++ match read_srcs Z 1%Z w with
+     | Some S' => map (fun s => s_volt s :: (if s_default s then 1 else 0) :: addr_code (s_addr s))%Z S'
+     | None => [[(-1)%Z]]
+     end.
